@@ -31,7 +31,10 @@ InitD == \E p \in Pkgs, k \in Kinds, pair \in {<<"Foo", "NewFoo">>, <<"NewFoo", 
 \* Go package names that meet the packages the generated code imports itself (net/http, context, errors, strings)
 InitE == \E p \in Pkgs, k1 \in Kinds, k2 \in Kinds,
             gp \in {"example.com/gen/http;http", "example.com/gen/api/http", "example.com/gen/context", "example.com/gen/errors;errors",
-                    "example.com/gen/strings", "example.com/gen/connect;connect", "example.com/gen/t;tpb"} :
+                    "example.com/gen/strings", "example.com/gen/connect;connect", "example.com/gen/t;tpb",
+                    \* ... and the names of the generated constructors' own parameters and locals
+                    "example.com/gen/opts", "example.com/gen/baseURL", "example.com/gen/httpClient", "example.com/gen/svc",
+                    "example.com/gen/mux", "example.com/gen/c;c", "example.com/gen/ctx", "example.com/gen/req"} :
            InitWith([D(p, <<S("Alpha", <<M("One", k1), M("Two", k2)>>)>>, gp, FALSE, FALSE) EXCEPT !.msgs = TRUE])
 MCInit == InitA \/ InitB \/ InitC \/ InitD \/ InitE
 MCSpec == MCInit /\ [][Next]_vars
